@@ -12,7 +12,7 @@ DESCRIPTION = {
              "under registration/subscription a.c) and replay under another key.  Oracle: untampered => handler/endpoint/caller receive exactly the sent args/kwargs, the WAMP "
              "message has enc_algo='cryptobox', a payload and no args/kwargs, and the serialized bytes do not contain the marker; tampered / wrong key / URI mismatch => the "
              "application handler is never invoked, events are dropped, invocations are answered with an encryption ERROR and calls fail with an ApplicationError whose URI is in "
-             "the wamp.error.encryption.* / no_payload_codec set - never a silent success, never altered data.  Events are delivered to 1-3 handlers attached to the same subscription: all get the genuine payload, none any forged, swapped or superseded one.  Enumerated job: values the transport can carry but the payload codec cannot (set, frozenset, datetime, UUID, nested) in all directions incl. progressive results - the operation may fail, the clear payload never goes out.  Non-trivial = a tampered ciphertext or a per-prefix keyring; "
+             "the wamp.error.encryption.* / no_payload_codec set - never a silent success, never altered data.  Events are delivered to 1-3 handlers attached to the same subscription: all get the genuine payload, none any forged, swapped or superseded one.  Enumerated job: values the transport can carry but the payload codec cannot (set, frozenset, datetime, UUID, nested) in all directions incl. progressive results - the operation may fail, the clear payload never goes out.  Registrations are also made relative to register(prefix=...).  Non-trivial = a tampered ciphertext or a per-prefix keyring; "
              "distinct by (direction, layout, alteration)."),
     "assumptions": ["errors are asserted to be encrypted only for keyrings that hold a key for the error URI (default-key layouts); with per-prefix keys the library looks the key up by error URI (don't-care)"],
 }
